@@ -43,6 +43,7 @@ import (
 type DAW struct {
 	AuthzFail   bool `json:",omitempty"`
 	AuthzDBFail bool `json:",omitempty"`
+	AuthzOther  bool `json:",omitempty"` // the authorization named by the request belongs to another account
 
 	Payload string   // "" (build) | notjson | errfield | badb64 | emptyobj | bracesobj | notcbor | cborwrongtype | noattobj
 	Format  string   // fmt value written into the object
@@ -401,7 +402,7 @@ func (w *DAW) extract(k *Case, payload []byte, prov *provisioner.ACME) string {
 	}
 	enabled := prov.IsAttestationFormatEnabled(context.Background(), provisioner.ACMEAttestationFormat(att.Format))
 	head := fmt.Sprintf("w=da authz=%s json=%s errf=%s b64=%s empty=%s wf=%s cbor=%s fmt=%s en=%s azdb=%s",
-		c.B(!w.AuthzFail), c.B(jsonOk), c.B(p.Error != ""), c.B(b64err == nil), c.B(empty), c.B(wf), c.B(cborOk), format, c.B(enabled), c.B(!w.AuthzDBFail))
+		c.B(!w.AuthzFail), c.B(jsonOk), c.B(p.Error != ""), c.B(b64err == nil), c.B(empty), c.B(wf), c.B(cborOk), format, c.B(enabled), c.B(!w.AuthzDBFail)) + " azother=" + c.B(w.AuthzOther)
 	if !cborOk {
 		return head + " fpne=0 facts=none"
 	}
@@ -495,12 +496,13 @@ var daMuts = []string{
 	"x5c-absent", "x5c-notarray", "x5c-empty", "x5c-leafnotbytes", "x5c-leafgarbage", "x5c-restgarbage", "x5c-leafonly", "x5c-wrongca", "x5c-expired", "x5c-rootonly",
 	"roots-other", "roots-none", "sysca-noroots", "sysca-noroots", "sysca-configured", "serial-other", "serial-absent", "serial-malformed", "serial-trailing", "serial-prefix", "key-p384", "key-rsa", "key-ed25519",
 	"fmt-disabled", "fmt-unknown", "fmt-case", "fmt-unknown-enabled", "payload-notjson", "payload-errfield", "payload-badb64", "payload-emptyobj", "payload-bracesobj",
-	"payload-notcbor", "payload-cborwrongtype", "payload-noattobj", "authz-missing", "authz-dbfail",
+	"payload-notcbor", "payload-cborwrongtype", "payload-noattobj", "authz-missing", "authz-dbfail", "authz-other-account", "authz-other-account",
 	"nonce-absent", "nonce-other-token", "nonce-keyauth", "nonce-empty", "nonce-trunc", "udid-only", "serial-only", "ids-none", "ids-swapped-case",
 	"tpm-nover", "tpm-ver1", "tpm-nox5c", "tpm-noroots", "tpm-akcert",
 	"tpm-exact", "tpm-exact", "tpm-exact", "tpm-extra-empty", "tpm-extra-prefix1", "tpm-extra-prefix20", "tpm-extra-prefix31", "tpm-extra-long33",
 	"tpm-extra-zero32", "tpm-extra-suffix20", "tpm-extra-empty-other-thumb", "tpm-no-pids", "tpm-other-pid", "tpm-two-pids", "tpm-other-thumb", "tpm-other-token", "tpm-token-only",
 	"tpm-sig-flip", "tpm-other-name", "tpm-subject", "tpm-no-hw", "tpm-no-eku", "tpm-magic", "tpm-restricted", "tpm-alg-bad", "tpm-alg-es256",
+	"tpm-ak-ecc", "tpm-alg-rs1", "tpm-alg-rs1-sha256sig", "tpm-alg-huge",
 	"tpm-pubarea-empty", "tpm-wrongca", "tpm-full-noroots", "tpm-disabled",
 }
 
@@ -581,6 +583,8 @@ func genDA(r *c.Rng, k *Case) {
 		w.AuthzFail = true
 	case "authz-dbfail":
 		w.AuthzDBFail = true
+	case "authz-other-account":
+		w.AuthzOther = true
 	case "nonce-absent":
 		w.HasNonc, w.Nonce = false, nil
 	case "nonce-other-token":
@@ -610,7 +614,7 @@ func genDA(r *c.Rng, k *Case) {
 	case "tpm-akcert":
 		w.Format, w.TPMVer = "tpm", "2.0"
 	case "tpm-exact", "tpm-extra-empty", "tpm-extra-prefix1", "tpm-extra-prefix20", "tpm-extra-prefix31", "tpm-extra-long33", "tpm-extra-zero32",
-		"tpm-extra-suffix20", "tpm-extra-empty-other-thumb", "tpm-no-pids", "tpm-other-pid", "tpm-two-pids", "tpm-other-thumb", "tpm-other-token", "tpm-token-only", "tpm-sig-flip", "tpm-other-name",
+		"tpm-extra-suffix20", "tpm-extra-empty-other-thumb", "tpm-no-pids", "tpm-other-pid", "tpm-two-pids", "tpm-other-thumb", "tpm-other-token", "tpm-token-only", "tpm-sig-flip", "tpm-other-name", "tpm-ak-ecc", "tpm-alg-rs1", "tpm-alg-rs1-sha256sig", "tpm-alg-huge",
 		"tpm-subject", "tpm-no-hw", "tpm-no-eku", "tpm-magic", "tpm-restricted", "tpm-alg-bad", "tpm-alg-es256", "tpm-pubarea-empty", "tpm-wrongca",
 		"tpm-full-noroots", "tpm-disabled":
 		w.Format, w.TPMVer = "tpm", "2.0"
